@@ -478,6 +478,14 @@ CLAIMED["C18"]["text"] += (" Round 7: the PEAK value field is exact below FLT_MI
                             "maxima (all six containers, both encodings, doubles between two subnormal floats, FLT_MIN as boundary) run on every seed; nothing below FLT_MIN is waived any more.")
 
 
+CLAIMED["C09"]["text"] += (" Round 8: the caller's file after a FAILING open (vlib/failopen.py, harness op `failopen`, model lean/SfModel/FailedOpen.lean, theorems lean/SfProps/C09FailedOpen.lean): every writable (container, codec) seed x truncations x field "
+                            "substitutions x byte hits x mode rw / r x four routes; a failing open that dies, or that changes the file in mode r, or in mode rw with an error the container's header reader raises, is a VIOLATION; "
+                            "KF-RDWR-FAILED-OPEN-FPE is repaired (failed_open_never_divides_by_zero: no close function runs a header writer on an SF_INFO that failed validate_sfinfo; failed_open_old_rule_traps), the rest of it is the "
+                            "open finding KF-RDWR-FAILED-OPEN-WRITES with the exact class KF.lateRefusal (failed_open_writes_iff_class, failed_open_writes_nothing_partial, failed_open_writes_nothing_refuted).")
+CLAIMED["C16"]["text"] += (" Round 8: KF-RDWR-FAILED-OPEN-FPE is repaired and no longer waived (a SIGFPE inside a failing SFM_RDWR open is a VIOLATION); error_exit_mode_releases_the_same (lean/SfProps/C09FailedOpen.lean): closing the failed "
+                            "SFM_RDWR handle as a read handle runs the same release program, for every handle state.")
+
+
 def main():
     checks = []
     for p in PROPS:
